@@ -195,7 +195,8 @@ def niter (P : NProb n m p K) (Q : NParams n m K) (O : NOracle n m K) (s : NSt n
   let curvSd := s.sds ⬝ᵥ hessS P s + s.sdt ⬝ᵥ s.sdt
   -- `alpha = min(alpha_tr, alpha_quad)`
   match minO aTr (aQuadOf Q gradSd curvSd) with
-  | none => .inr s      -- an infinite step length: a direction of descent without curvature and without component to bound
+  | none => .inr s      -- both step lengths infinite: the code would go on with `min(inf, alpha_bd, alpha_ub)`; under `NQOK` with
+                        -- `TINY = 0` this needs both halves of the direction to vanish, and then the first test has already ended the loop
   | some alpha0 =>
     if -alpha0 * (gradSd + 1 / 2 * alpha0 * curvSd) ≤ Q.rtol * s.reduct then .inr s else
     nfinish P Q O s aTr gradSd curvSd alpha0
